@@ -95,9 +95,15 @@ def run(rep, tier):
              'hexsim::Processor::load', floor=2)
     ld = tb.func('load')
     rep.analysed(ld.sig)
-    shl2 = any(n['kind'] == 'CompoundAssignOperator' and n.get('opcode') == '<<=' and cast.const_int(children(n)[1], tb) == 2 for n in walk(ld.body))
+    scal = [(n.get('opcode'), cast.const_int(children(n)[1], tb)) for n in walk(ld.body)
+            if n['kind'] == 'CompoundAssignOperator' and n.get('opcode') in ('<<=', '*=', '>>=', '/=')]
+    shl2 = scal in ([('<<=', 2)], [('*=', 4)])
     hdr4 = any(callee_of(c)[1] == 'read' and cast.const_int(cast.call_args(c)[1], tb) == 4 for c in cast.calls_in(ld.body))
-    rep.add('R3', 'load:header', shl2 and hdr4, pos(ld.node) + ' load (hextb.cpp)', '4-byte header read: %s, size <<= 2: %s' % (hdr4, shl2))
+    if hdr4 and not scal:
+        # no compound scaling at all: the size may be computed in a form this rule does not know -- not a verdict
+        rep.undecided('R3', 'load:header', 'the scaling of the length word is not written as `<<= 2` / `*= 4`: idiom not recognised', pos(ld.node))
+    else:
+        rep.add('R3', 'load:header', shl2 and hdr4, pos(ld.node) + ' load (hextb.cpp)', '4-byte header read: %s, size scaling: %s' % (hdr4, scal))
     mc = [c for c in cast.calls_in(ld.body) if callee_of(c)[1] == 'memcpy']
     ok = False
     detail = '%d memcpy call(s)' % len(mc)
